@@ -8,7 +8,8 @@ from vlib import common
 GO = dict(module="core", pkg="internal/congestion/bbr", pkgname="bbr",
           files={"zz_verif_c12_test.go": "c12/c12_test.go",
                  "zz_verif_c12_struct_test.go": "c12/c12_struct_test.go",
-                 "zz_verif_c12_sim_test.go": "c12/c12_sim_test.go"},
+                 "zz_verif_c12_sim_test.go": "c12/c12_sim_test.go",
+                 "zz_verif_c12_replay_test.go": "c12/c12_replay_test.go"},
           run="TestVerifC12")
 GO_SEED = dict(module="core", pkg="internal/congestion", pkgname="congestion",
                files={"zz_verif_c12_seed_test.go": "c12/c12_seed_test.go"}, run="TestVerifC12Seed")
@@ -258,6 +259,23 @@ def z(v):
 
 def zl(xs):
     return "[" + ";".join(z(x) for x in xs) + "]"
+
+
+PROF_INDEX = {"standard": 0, "conservative": 1, "aggressive": 2}
+
+
+def replay_to_coq(c, o):
+    """whole-trace replay term of a sim case (layer 3), None when the case recorded none"""
+    if c["k"] != "sim" or not o.get("replay") or o.get("replayOver"):
+        return None
+    sim = c["sim"]
+    m = sim["mds"]
+    if sim.get("maxPkts", 0) > 0:
+        icw = (sim.get("icwPkts") or 32) * m
+        mcw = sim["maxPkts"] * m
+    else:
+        icw, mcw = 32 * m, 20000 * m
+    return "CReplay %d %d %d %d [%s]" % (PROF_INDEX[sim["profile"]], m, icw, mcw, ";".join(str(x) for x in o["replay"]))
 
 
 def to_coq(c, o):
